@@ -66,6 +66,19 @@ from nemoguardrails.utils import console, new_uuid
 log = logging.getLogger(__name__)
 
 
+def _is_plain_value(value: Any) -> bool:
+    """Check if a value is made only of None, booleans, numbers, strings and lists/tuples/sets/dicts of them."""
+    if value is None or isinstance(value, (bool, int, float, str)):
+        return True
+    if isinstance(value, (list, tuple, set)):
+        return all(_is_plain_value(v) for v in value)
+    if isinstance(value, dict):
+        return all(
+            _is_plain_value(k) and _is_plain_value(v) for k, v in value.items()
+        )
+    return False
+
+
 def _remove_leading_empty_lines(s: str) -> str:
     """Remove the leading empty lines if they exist.
 
@@ -786,9 +799,16 @@ class LLMGenerationActionsV2dotx(LLMGenerationActions):
         log.info("Generated value for $%s: %s", var_name, value)
 
         try:
-            return literal_eval(value)
+            literal = literal_eval(value)
         except Exception:
             raise Exception(f"Invalid LLM response: `{value}`")
+
+        # A flow variable must hold a value that the rest of the runtime can work with and
+        # that the state serialization can store, e.g., `...` is a valid literal (Ellipsis).
+        if not _is_plain_value(literal):
+            raise Exception(f"Invalid LLM response: `{value}`")
+
+        return literal
 
     @action(name="GenerateFlowAction", is_system_action=True, execute_async=True)
     async def generate_flow(
